@@ -3,8 +3,11 @@ import platform
 import sys
 import traceback
 
-from conductor.errors import ConductorError, UnsupportedPlatform
-from conductor.errors.signal import register_signal_handlers
+from conductor.errors import ConductorAbort, ConductorError, UnsupportedPlatform
+from conductor.errors.signal import (
+    register_signal_handlers,
+    raise_if_abort_requested,
+)
 
 
 @contextlib.contextmanager
@@ -41,14 +44,24 @@ def cli_command(main):
     takes care of reporting errors that occur when running a command.
     """
 
-    def command_main(args):
+    def run_and_report(args):
         try:
             check_platform_compatibility()
             register_signal_handlers()
             main(args)
+            # The abort may have been raised where Python discards exceptions.
+            raise_if_abort_requested()
         except ConductorError as ex:
             if args.debug:
                 print(traceback.format_exc(), file=sys.stderr)
+            print("ERROR:", ex.printable_message(), file=sys.stderr)
+            sys.exit(1)
+
+    def command_main(args):
+        try:
+            run_and_report(args)
+        except ConductorAbort as ex:
+            # The abort arrived while another error was being reported.
             print("ERROR:", ex.printable_message(), file=sys.stderr)
             sys.exit(1)
 
